@@ -64,6 +64,8 @@ type msg struct {
 	obj   string
 	site  string
 	write bool
+	// shared marks the read side of a reader/writer lock
+	shared bool
 }
 
 // VCRace is a conflicting pair of accesses found by the deterministic
@@ -101,7 +103,9 @@ type Task struct {
 	done     bool
 	held     []uintptr
 	wantLock uintptr
-	prio     int
+	// wantShared: the pending acquisition is the read side of a RWMutex
+	wantShared bool
+	prio       int
 	started  bool
 	// Panic holds the recovered panic value of the task, if any.
 	Panic interface{}
@@ -199,6 +203,9 @@ type Sched struct {
 	MapChoices int
 	// Contended counts lock attempts that found the lock held by another task.
 	Contended int
+	// SharedOverlap counts read-lock requests made while another task already
+	// held the read side of the same lock.
+	SharedOverlap int
 	edges     []lockEdge
 	dirActive bool
 	// HeldBack counts scheduling decisions in which the directive kept TaskA waiting.
@@ -206,6 +213,11 @@ type Sched struct {
 	// vector clocks (controller only)
 	vc      [][]int
 	lockVC  map[uintptr][]int
+	// readers counts the tasks holding the read side of a reader/writer lock;
+	// readerVC joins the clocks of their releases (a writer synchronises with
+	// all of them, a reader only with the last writer).
+	readers  map[uintptr]int
+	readerVC map[uintptr][]int
 	cells   map[uintptr]*vcCell
 	VCRaces []VCRace
 	// Outcome
@@ -338,6 +350,24 @@ func (s *Sched) Unlocked(key uintptr, name string) {
 	s.handoff(msg{kind: mUnlock, key: key, ekind: KUnlock, obj: name})
 }
 
+// RLock is the cooperative acquire of the read side of a reader/writer lock:
+// readers exclude writers, not each other.
+//
+//go:norace
+func (s *Sched) RLock(key uintptr, name string, try func() bool) {
+	s.handoff(msg{kind: mLock, key: key, ekind: KLock, obj: name, shared: true})
+	if !try() {
+		panic("sched: invariant broken: read lock believed free of writers was held: " + name)
+	}
+}
+
+// RUnlocked is called after the real RUnlock.
+//
+//go:norace
+func (s *Sched) RUnlocked(key uintptr, name string) {
+	s.handoff(msg{kind: mUnlock, key: key, ekind: KUnlock, obj: name, shared: true})
+}
+
 //go:norace
 func (s *Sched) log(t *Task, kind, obj, site string) uint64 {
 	s.seq++
@@ -365,6 +395,9 @@ func (s *Sched) runnable() []*Task {
 		}
 		if t.wantLock != 0 {
 			if o := s.owner[t.wantLock]; o != nil {
+				continue
+			}
+			if !t.wantShared && s.readers[t.wantLock] > 0 {
 				continue
 			}
 			if d := s.Cfg.Direct; d != nil && s.dirActive && t.ID == d.TaskA && s.lockName[t.wantLock] == d.Second && s.holdsNamed(t, d.First) {
@@ -471,6 +504,8 @@ func (s *Sched) Run() {
 		s.vc[i][i] = 1
 	}
 	s.lockVC = map[uintptr][]int{}
+	s.readers = map[uintptr]int{}
+	s.readerVC = map[uintptr][]int{}
 	s.cells = map[uintptr]*vcCell{}
 	s.active = true
 	s.dirActive = s.Cfg.Direct != nil
@@ -501,7 +536,11 @@ func (s *Sched) Run() {
 		}
 		if t.wantLock != 0 {
 			// lock is free (runnable() checked): the task acquires it now
-			s.owner[t.wantLock] = t
+			if t.wantShared {
+				s.readers[t.wantLock]++
+			} else {
+				s.owner[t.wantLock] = t
+			}
 			for i, h := range t.held {
 				g := make([]uintptr, 0, len(t.held))
 				g = append(g, t.held[:i]...)
@@ -517,7 +556,17 @@ func (s *Sched) Run() {
 					}
 				}
 			}
+			if !t.wantShared {
+				if lc := s.readerVC[t.wantLock]; lc != nil {
+					for i, v := range lc {
+						if v > s.vc[t.ID][i] {
+							s.vc[t.ID][i] = v
+						}
+					}
+				}
+			}
 			t.wantLock = 0
+			t.wantShared = false
 		}
 		if !t.started {
 			t.started = true
@@ -560,14 +609,22 @@ func (s *Sched) Run() {
 				if o := s.owner[m.key]; o != nil && o != m.task {
 					s.Contended++
 				}
+				if m.shared && s.readers[m.key] > 0 {
+					s.SharedOverlap++
+				}
 				m.task.wantLock = m.key
+				m.task.wantShared = m.shared
 				break inner
 			case mUnlock:
 				if m.obj == "" {
 					m.obj = s.lockName[m.key]
 				}
 				s.log(m.task, KUnlock, m.obj, m.site)
-				if s.owner[m.key] == m.task {
+				if m.shared {
+					if s.readers[m.key] > 0 {
+						s.readers[m.key]--
+					}
+				} else if s.owner[m.key] == m.task {
 					delete(s.owner, m.key)
 				}
 				for i := len(m.task.held) - 1; i >= 0; i-- {
@@ -576,9 +633,23 @@ func (s *Sched) Run() {
 						break
 					}
 				}
-				lc := make([]int, n)
-				copy(lc, s.vc[m.task.ID])
-				s.lockVC[m.key] = lc
+				if m.shared {
+					// a reader's release is seen by the next writer only
+					rc := s.readerVC[m.key]
+					if rc == nil {
+						rc = make([]int, n)
+					}
+					for i, v := range s.vc[m.task.ID] {
+						if v > rc[i] {
+							rc[i] = v
+						}
+					}
+					s.readerVC[m.key] = rc
+				} else {
+					lc := make([]int, n)
+					copy(lc, s.vc[m.task.ID])
+					s.lockVC[m.key] = lc
+				}
 				s.vc[m.task.ID][m.task.ID]++
 				break inner
 			default:
@@ -747,6 +818,8 @@ func (s *Sched) waitGraph() string {
 			on := "?"
 			if o != nil {
 				on = o.Name
+			} else if s.readers[t.wantLock] > 0 {
+				on = itoa(s.readers[t.wantLock]) + " reader(s)"
 			}
 			parts = append(parts, fmt.Sprintf("%s waits for %s held by %s", t.Name, s.lockName[t.wantLock], on))
 		}
